@@ -262,6 +262,13 @@ func compare(k *mon.Case, s *spend, family, flagClass, mutation string) *result 
 			key += ":unparsable-sig-or-key"
 		}
 		_ = mutation
+		if flagClass == "toggle" {
+			// A single-flag toggle is a flag set the node never builds: the property quantifies over the sets
+			// used for block validation and for relay policy only, so a disagreement here is recorded as
+			// coverage (it still widens what the generated programs exercise) and is not a violation.
+			k.Count("toggle_only_disagreement", 1)
+			return res
+		}
 		k.Violation(key, fmt.Sprintf("reference (Core semantics) says %s, btcd Engine.Execute says %v; flags=%s",
 			orOK(res.refErr), err, s.flags), s.describe(family))
 	}
